@@ -1049,4 +1049,91 @@ theorem store_exact_small_int (pk k : IK) (i : Int) (hi : i.natAbs < 2^53) :
       simp [hn, h1, hu, ha]
       omega
 
+/-! ### observers of bridged containers -/
+
+theorem setEnt_lookup_isSome (p k : Str) (v : Int) (es : List (Str × Int)) :
+    (lookupEnt p (setEnt k v es)).isSome = (lookupEnt p es).isSome := by
+  induction es with
+  | nil => rfl
+  | cons e r ih =>
+    obtain ⟨k', v'⟩ := e
+    simp only [setEnt]
+    by_cases h : k' = k
+    · subst h
+      simp only [if_true, lookupEnt]
+      by_cases hp : k' = p <;> simp [hp]
+    · simp only [h, if_false, lookupEnt]
+      by_cases hp : k' = p
+      · simp [hp]
+      · simp [hp, ih]
+
+/-- the regions-free condition: every probed array index exists -/
+def ProbesInRange (s : VSt) (probes : List Str) : Prop :=
+  s.kind.isSeq = true → ∀ p ∈ probes, isIndexKey p = true → (lookupEnt p s.ents).isSome = true
+
+theorem getOwn_exact (s : VSt) (k : Str)
+    (h : s.kind.isSeq = true → isIndexKey k = true → (lookupEnt k s.ents).isSome = true) :
+    s.getOwn true k = s.getOwn false k := by
+  unfold VSt.getOwn
+  by_cases hs : s.kind.isSeq = true
+  · simp only [hs, if_true]
+    by_cases hl : k = sLength
+    · simp [hl]
+    · simp only [hl, if_false]
+      cases hk : lookupEnt k s.ents with
+      | some v => rfl
+      | none =>
+        by_cases hi : isIndexKey k = true
+        · have := h hs hi; rw [hk] at this; simp at this
+        · simp [hi]
+  · simp [hs]
+
+theorem observe_exact (s : VSt) (probes : List Str) (h : ProbesInRange s probes) :
+    observe true s probes = observe false s probes := by
+  have : ∀ p ∈ probes, s.getOwn true p = s.getOwn false p := by
+    intro p hp
+    exact getOwn_exact s p (fun hs hi => h hs p hp hi)
+  simp only [observe]
+  congr 1
+  · exact List.map_congr_left (fun p hp => by rw [this p hp])
+  · exact List.map_congr_left this
+
+theorem viewStep_kind (s : VSt) (op : VOp) : (viewStep s op).kind = s.kind := by
+  cases op <;> simp only [viewStep] <;> (repeat' split) <;> rfl
+
+theorem viewStep_lookup (s : VSt) (op : VOp) (p : Str) (hs : s.kind.isSeq = true) :
+    (lookupEnt p (viewStep s op).ents).isSome = (lookupEnt p s.ents).isSome := by
+  cases hk : s.kind with
+  | map => simp [hk, VKind.isSeq] at hs
+  | struct => simp [hk, VKind.isSeq] at hs
+  | slice => cases op <;> simp only [viewStep, hk] <;> (repeat' split) <;> simp [setEnt_lookup_isSome]
+  | arrPtr => cases op <;> simp only [viewStep, hk] <;> (repeat' split) <;> simp [setEnt_lookup_isSome]
+  | arrVal => cases op <;> simp only [viewStep, hk]
+
+theorem step_preserves (s : VSt) (op : VOp) (probes : List Str) (h : ProbesInRange s probes) :
+    ProbesInRange (viewStep s op) probes := by
+  intro hs p hp hi
+  rw [viewStep_kind] at hs
+  rw [viewStep_lookup s op p hs]
+  exact h hs p hp hi
+
+/-- **C16.container_refines (observers).**  For every bridged slice, array, map or struct of the family, every
+    history of JavaScript and Go writes and deletes, and every list of probed names whose array indices are
+    in range, all key observers (`in`, hasOwnProperty, Object.keys, getOwnPropertyNames, for-in,
+    getOwnPropertyDescriptor with value and attributes) report after EVERY step exactly the Go-side contents,
+    as the property text demands.  Outside that hypothesis the code answers every array index with an own
+    property (region `seq_out_of_range_index_reported_as_own_property`). -/
+theorem view_exact (ops : List VOp) : ∀ (s : VSt) (probes : List Str), ProbesInRange s probes →
+    viewRun true s probes ops = viewRun false s probes ops := by
+  induction ops with
+  | nil => intro s probes h; simp [viewRun, observe_exact s probes h]
+  | cons op rest ih =>
+    intro s probes h
+    simp only [viewRun]
+    rw [observe_exact s probes h, ih _ probes (step_preserves s op probes h)]
+
+-- the region is inhabited: `9 in s` for a 1-element bridged slice
+example : (observe true ⟨.slice, [([48], 1)], []⟩ [[57]]).has = [true] ∧
+    (observe false ⟨.slice, [([48], 1)], []⟩ [[57]]).has = [false] := by decide
+
 end OttoVerif.C16.Thm
